@@ -1,8 +1,4 @@
-import DepsDev.Drive.Loop
+import DepsDev.Drive.Semver
 open DepsDev
 
-/-- Stub: replaced by the property's builder. -/
-def handleC04 : List String → String
-  | _ => "bad-op"
-
-def main : IO Unit := Drive.runDriver "C04" handleC04
+def main : IO Unit := Drive.runDriver "C04" Drive.Semver.handleOrBad
